@@ -1,4 +1,5 @@
 import CgtModel.Report
+import CgtModel.Spec
 /-! Line protocol: token parsers and printers shared by all driver commands. -/
 namespace Cgt.Wire
 open Cgt
@@ -105,6 +106,16 @@ def showYear (y : YearSummary) : String :=
 def showReport (r : Report) : String :=
   "ok" ++ String.join (r.years.map (fun y => " " ++ showYear y)) ++
     String.join (r.holdings.map (fun (t, p) => s!" H {t} {showRat p.q} {showRat p.c}"))
+
+def showSpec (rs : List Spec.Result) : String :=
+  let rs := rs.mergeSort (fun a b => a.ticker ≤ b.ticker)
+  "ok" ++ String.join (rs.map (fun r =>
+    s!" T {r.ticker} {showRat r.poolQ} {showRat r.poolC} {r.disposals.length}" ++
+      String.join (r.disposals.map (fun d =>
+        s!" D {showDate d.date} {showRat d.qty} {showRat d.gross} {showRat d.net} {showRat d.gain} {d.legs.length}" ++
+          String.join (d.legs.map (fun l =>
+            let acq := match l.acq with | some a => showDate a | none => "-"
+            s!" M {showRule l.rule} {showRat l.qty} {showRat l.cost} {acq}"))))))
 
 def showCalcErr (l : List Tx) : CalcErr → String
   | .matcher e => showMErr l e
